@@ -65,6 +65,16 @@ struct Case {
     via_builder: bool,
 }
 
+/// plausible aliases and near-misses of the real column names (extra columns with these names must be ignored)
+const VALIAS: [&str; 22] = [
+    "lon", "lat", "longitude", "latitude", "X", "Y", "x_coord", "y_coord", "x2", "y2", "id", "vertex", "vertex_uuid",
+    "Vertex_Id", "vertex_id2", "vid", "node_id", "lng", "easting", "northing", " x", "y ",
+];
+const EALIAS: [&str; 24] = [
+    "src", "dst", "source", "target", "from", "to", "length", "dist", "edge", "id", "src_vertex", "dst_vertex",
+    "dst_vertex_id2", "src_vertex_id_old", "edge_id2", "Edge_Id", "eid", "distance_m", "Distance", "length_m", "u", "v",
+    " distance", "edge_id ",
+];
 const ECOLS: [&str; 4] = ["edge_id", "src_vertex_id", "dst_vertex_id", "distance"];
 const VCOLS: [&str; 3] = ["vertex_id", "x", "y"];
 
@@ -107,11 +117,17 @@ fn render(l: &Layout, rows: &[Vec<(String, String)>]) -> (String, usize) {
             .enumerate()
             .map(|(ci, c)| {
                 let v = if let Some(x) = c.strip_prefix('+') {
-                    // extra column: text, number or empty
-                    match (ri + ci + x.len()) % 3 {
-                        0 => format!("{}{}", x, ri),
-                        1 => format!("{}", (ri * 7 + ci) as f64 / 8.0),
-                        _ => String::new(),
+                    // extra column. A name that is an alias / near-miss of a real column carries a NUMBER that no
+                    // real column of that row holds (so a reader that takes it for the real one is seen);
+                    // the other extra columns hold text, a number or nothing
+                    if VALIAS.contains(&x) || EALIAS.contains(&x) {
+                        format!("{}", 5000 + 7 * ri + ci)
+                    } else {
+                        match (ri + ci + x.len()) % 3 {
+                            0 => format!("{}{}", x, ri),
+                            1 => format!("{}", (ri * 7 + ci) as f64 / 8.0),
+                            _ => String::new(),
+                        }
                     }
                 } else {
                     r.iter().find(|(k, _)| k == c).map(|(_, v)| v.clone()).unwrap_or_default()
@@ -427,6 +443,12 @@ fn add_files_case(st: &mut Stream, root: &Path, c: Case, family: &str) {
         st.count("documented_format_but_dangling_end_point(must_fail)");
     }
     st.count(&format!("via:{}", if c.via_builder { "DefaultGraphBuilder" } else { "Graph::from_files" }));
+    if c.vl.columns.iter().any(|n| n.strip_prefix('+').map(|x| VALIAS.contains(&x)).unwrap_or(false)) {
+        st.count("vertex_extra_column_named_like_alias");
+    }
+    if c.el.columns.iter().any(|n| n.strip_prefix('+').map(|x| EALIAS.contains(&x)).unwrap_or(false)) {
+        st.count("edge_extra_column_named_like_alias");
+    }
     if c.vl.columns != VCOLS.iter().map(|s| s.to_string()).collect::<Vec<_>>() {
         st.count("vertex_columns_shuffled_or_extra");
     }
@@ -452,10 +474,24 @@ fn add_files_case(st: &mut Stream, root: &Path, c: Case, family: &str) {
 fn shuffled_columns(r: &mut Rng, req: &[&str], extras: usize) -> Vec<String> {
     let mut cols: Vec<String> = req.iter().map(|s| s.to_string()).collect();
     r.shuffle(&mut cols);
-    let names = ["+name", "+z", "+elev", "+road", "+note"];
+    let plain = ["name", "z", "elev", "road", "note"];
+    let alias: &[&str] = if req.len() == 3 { &VALIAS } else { &EALIAS };
     for k in 0..extras {
         let pos = r.below(cols.len() as u64 + 1) as usize;
-        cols.insert(pos, names[k % names.len()].to_string());
+        // two extra columns in three carry the name of an alias / near-miss of a real column
+        let name = if r.chance(2, 3) { *r.pick(alias) } else { plain[k % plain.len()] };
+        let name = format!("+{}", name);
+        if !cols.contains(&name) {
+            cols.insert(pos, name);
+        }
+    }
+    cols
+}
+/// the real columns in the given order with ALL the given extra names inserted at position `pos`
+fn with_extras_at(real: &[&str], extras: &[&str], pos: usize) -> Vec<String> {
+    let mut cols: Vec<String> = real.iter().map(|s| s.to_string()).collect();
+    for (k, e) in extras.iter().enumerate() {
+        cols.insert(pos + k, format!("+{}", e));
     }
     cols
 }
@@ -465,7 +501,7 @@ fn random_layout(r: &mut Rng, req: &[&str]) -> Layout {
     l.trailing_newline = r.chance(1, 2);
     l.crlf = r.chance(1, 6);
     if r.chance(1, 2) {
-        let extras = r.below(3) as usize;
+        let extras = r.below(5) as usize;
         l.columns = shuffled_columns(r, req, extras);
     }
     l.pad = r.chance(1, 5);
@@ -680,6 +716,39 @@ fn files_stream(a: &Args) {
         c.el.trailing_newline = nl;
         c.vl.trailing_newline = nl;
         add_files_case(&mut st, &root, c, "blank_trailing_lines");
+    }
+    // extra columns NAMED like aliases / near-misses of the real columns, holding other numbers, in every
+    // position (before, between, after the real columns) and for several orders of the real columns
+    {
+        let vorders: [[&str; 3]; 3] = [["vertex_id", "x", "y"], ["y", "vertex_id", "x"], ["x", "y", "vertex_id"]];
+        for (oi, real) in vorders.iter().enumerate() {
+            for pos in 0..=3usize {
+                let mut c = star(6, 6, 5);
+                c.vl.columns = with_extras_at(real, &VALIAS, pos);
+                c.vl.fmt = FMTS[(oi + pos) % 3];
+                c.via_builder = (oi + pos) % 4 == 0;
+                add_files_case(&mut st, &root, c, "alias_named_extra_columns_vertex");
+            }
+        }
+        // one alias between every two real columns
+        let mut c = star(6, 6, 5);
+        c.vl.columns = ["+lat", "vertex_id", "+lon", "x", "+latitude", "y", "+longitude"].iter().map(|s| s.to_string()).collect();
+        add_files_case(&mut st, &root, c, "alias_named_extra_columns_vertex");
+        let mut c = star(6, 6, 5);
+        c.vl.columns = ["+osm_id", "+lat", "+lon", "vertex_id", "x", "y", "+elevation"].iter().map(|s| s.to_string()).collect();
+        add_files_case(&mut st, &root, c, "alias_named_extra_columns_vertex");
+        let eorders: [[&str; 4]; 2] = [ECOLS, ["distance", "dst_vertex_id", "edge_id", "src_vertex_id"]];
+        for (oi, real) in eorders.iter().enumerate() {
+            for pos in 0..=4usize {
+                let mut c = star(6, 6, 5);
+                c.el.columns = with_extras_at(real, &EALIAS, pos);
+                c.el.fmt = FMTS[(oi + pos) % 3];
+                add_files_case(&mut st, &root, c, "alias_named_extra_columns_edge");
+            }
+        }
+        let mut c = star(6, 6, 5);
+        c.el.columns = ["+id", "edge_id", "+src", "src_vertex_id", "+dst", "dst_vertex_id", "+length", "distance", "+dist"].iter().map(|s| s.to_string()).collect();
+        add_files_case(&mut st, &root, c, "alias_named_extra_columns_edge");
     }
     // column order / extra columns / padding / CRLF / exponent notation, one at a time
     {
